@@ -223,6 +223,9 @@ def _alarm(signum, frame):
 def _run_job(payload):
     modname, fnname, name, args, kw, job_timeout = payload
     t0 = time.time()
+    if os.environ.get("VERIF_JOBLOG"):
+        with open(os.environ["VERIF_JOBLOG"], "a") as f:
+            f.write(f"{os.getpid()} start {name}\n")
     from . import sym
 
     Query.count = 0
@@ -246,12 +249,15 @@ def _run_job(payload):
         res = [rec(name, "error", time.time() - t0, detail="".join(traceback.format_exception(type(e), e, e.__traceback__))[-1800:])]
     finally:
         signal.alarm(0)
+    if os.environ.get("VERIF_JOBLOG"):
+        with open(os.environ["VERIF_JOBLOG"], "a") as f:
+            f.write(f"{os.getpid()} end {name} {time.time() - t0:.1f}\n")
     stats = dict(sym.STATS)
     stats.update(queries=Query.count, solver_time=round(Query.time, 3), axioms=sorted(Query.axiom_names), wall=round(time.time() - t0, 3))
     return name, res, stats, meta
 
 
-def run_jobs(jobs, nproc=None, job_timeout=600):
+def run_jobs(jobs, nproc=None, job_timeout=600, per_process=1):
     """Run jobs in forked worker processes; yields (name, records, stats, meta)."""
     nproc = nproc or int(os.environ.get("VERIF_NPROC", min(16, os.cpu_count() or 4)))
     payloads = [(j.fn.__module__, j.fn.__name__, j.name, j.args, j.kw, job_timeout) for j in jobs]
@@ -259,10 +265,55 @@ def run_jobs(jobs, nproc=None, job_timeout=600):
         for p in payloads:
             yield _run_job(p)
         return
+    # one forked process per job: every job starts from the same (parent) solver state, so a verdict does not depend
+    # on which jobs happened to run before it in the same worker
+    from multiprocessing.connection import wait as _wait
+
+    try:
+        import gstools  # noqa: F401  (pre-imported once; the children inherit it)
+    except Exception:
+        pass
     ctx = mp.get_context("fork")
-    with ctx.Pool(processes=min(nproc, len(payloads)), maxtasksperchild=1) as pool:
-        for r in pool.imap_unordered(_run_job, payloads, chunksize=1):
-            yield r
+
+    def child(conn, batch):
+        try:
+            for payload in batch:
+                try:
+                    conn.send(_run_job(payload))
+                except BaseException as e:  # e.g. unpicklable record
+                    conn.send((payload[2], [rec(payload[2], "error", 0.0, detail=f"worker failed: {e!r}")], {}, {}))
+        finally:
+            conn.close()
+
+    # many tiny jobs: fixed batches of consecutive jobs per process (the composition of a batch does not depend on scheduling)
+    per_process = max(1, int(per_process))
+    batches = [payloads[i : i + per_process] for i in range(0, len(payloads), per_process)]
+    pending = list(reversed(batches))
+    running = {}
+    nproc = min(nproc, len(batches))
+    while pending or running:
+        while pending and len(running) < nproc:
+            pl = pending.pop()
+            r, w = ctx.Pipe(duplex=False)
+            pr = ctx.Process(target=child, args=(w, pl), daemon=True)
+            pr.start()
+            w.close()
+            running[r] = (pr, pl, set())
+        for r in _wait(list(running), timeout=1.0):
+            pr, pl, got = running[r]
+            try:
+                res = r.recv()
+                got.add(res[0])
+                yield res
+                continue
+            except (EOFError, OSError):
+                pass
+            running.pop(r)
+            r.close()
+            pr.join(timeout=5)
+            for payload in pl:
+                if payload[2] not in got:
+                    yield (payload[2], [rec(payload[2], "error", 0.0, detail="worker process died without a result")], {}, {})
 
 
 # --------------------------------------------------------------------------
